@@ -201,7 +201,7 @@ void UncompressedFile::write(const std::shared_ptr<LogContainer> & logContainer)
     tellgChanged.wait(lock, [&] {
         return
         m_abort ||
-        static_cast<uint32_t>(m_tellp - m_tellg) < m_bufferSize;
+        ((m_tellp - m_tellg) < m_bufferSize);
     });
 
     /* close a partly filled log container, so that the appended one follows it without overlap */
